@@ -10,6 +10,7 @@ import (
 	"path/filepath"
 	"regexp"
 	"sort"
+	"strings"
 
 	"github.com/reedom/convergen/pkg/builder"
 	"github.com/reedom/convergen/pkg/builder/model"
@@ -98,13 +99,25 @@ func NewParser(srcPath, dstPath string) (*Parser, error) {
 	if fileSrc == nil {
 		return nil, logger.Errorf("%v: the input file was not loaded (it must belong to the package and differ from the output path)", srcPath)
 	}
+	imports := util.NewImportNames(fileSrc.Imports)
+	// An import without an explicit name is referred to by the name of the package,
+	// which need not be the last element of its path (".../foo/v2" is package foo).
+	for _, spec := range fileSrc.Imports {
+		if spec.Name != nil {
+			continue
+		}
+		path := strings.Trim(spec.Path.Value, "\"`")
+		if imported, ok := pkgs[0].Imports[path]; ok && imported.Name != "" {
+			imports[path] = imported.Name
+		}
+	}
 	return &Parser{
 		srcPath: fileSet.Position(fileSrc.Pos()).Filename,
 		fset:    fileSet,
 		file:    fileSrc,
 		pkg:     pkgs[0],
 		opts:    option.NewOptions(),
-		imports: util.NewImportNames(fileSrc.Imports),
+		imports: imports,
 	}, nil
 }
 
